@@ -32,6 +32,17 @@ def main():
         only = {int(x) for x in a.only.split(',')}
     run = common.Run(a.pid, tier, seed, only)
     mod = importlib.import_module(a.pid.lower())
+    # the translators run first: tables (gen_tables) and closed forms of the arithmetic statements (py2lean) are re-derived
+    # from the code under test, so that the proof leg re-checks the dependent theorems against what the code says now
+    tie_problems = []
+    try:
+        import gen_tables, py2lean
+        on_repo = common.REPO == pathlib.Path('/repo')
+        if on_repo:
+            gen_tables.write()
+        tie_problems = py2lean.refresh(a.pid, write_allowed=on_repo)
+    except Exception:
+        tie_problems = ['translator crashed: ' + traceback.format_exc()[-600:]]
     if a.no_proof:
         proof = common.Proof()
         proof.build_ok = True
@@ -39,6 +50,9 @@ def main():
         proof.axioms = {'(skipped)': []}
     else:
         proof = common.proof_leg(a.pid, leanchecker=(tier == 'thorough' and not a.replay))
+    for t in tie_problems:
+        run.disagree(dict(i=None), '(source-text tie, harness/py2lean.py)', 'definitions the tie theorems were checked against', t,
+                     what='the arithmetic the code states is no longer the one the model was proved equal to')
     try:
         mod.run(run)
     except Exception:
